@@ -45,18 +45,28 @@ class Env:
         self.counters[k] = self.counters.get(k, 0) + n
 
     # ---- real evaluation ----------------------------------------------------------
-    def evaluate(self, q, input_idx=None, extra=None, cache=None):
-        """evaluate under the given global cache; returns (outcome dict, state or None, call log)"""
+    def evaluate(self, q, input_idx=None, extra=None, cache=None, via="plain"):
+        """evaluate under the given global cache; returns (outcome dict, state or None, call log).
+        via: "plain" - Context().evaluate with the cache installed globally; "debug" - the same from a Context(debug=True)
+        (debug messages travel through the same progress-metadata writes); "cache_arg" - the cache is handed to this one
+        call (evaluate(q, cache=c)) while the global cache is NoCache."""
         from liquer.cache import set_cache, NoCache
         from liquer.context import Context
 
-        set_cache(cache if cache is not None else NoCache())
+        kw = {}
+        if via == "cache_arg" and cache is not None:
+            set_cache(NoCache())
+            kw["cache"] = cache
+        else:
+            set_cache(cache if cache is not None else NoCache())
+        self.count("via." + via)
         log = vocab.use_log([])
         inp = None if input_idx is None else copy.deepcopy(INPUTS[input_idx])
         signal.alarm(40)
         try:
             try:
-                st = Context().evaluate(q, input_value=inp, extra_parameters=copy.deepcopy(extra))
+                ctx = Context(debug=True) if via == "debug" else Context()
+                st = ctx.evaluate(q, input_value=inp, extra_parameters=copy.deepcopy(extra), **kw)
                 exc = None
             except Timeout:
                 self.count("timeouts")
